@@ -56,12 +56,15 @@ def run(ctx):
     json.dump(ccases, open(cpath, "w"))
     ctpath = ctx.path("connect_trace.ndjson")
     crep = ctx.go_engine("srvh", "TestConnect", env={"VERIF_CONNECT": cpath, "VERIF_TRACE_OUT": ctpath}, timeout=600, name="TestConnect")
+    # 3b. the Unix file server: stats and directory entries of every kind of host object in both dialects
+    utpath = ctx.path("negoufs_trace.ndjson")
+    urep = ctx.go_engine("ufstree", "TestNegoUfs", env={"VERIF_TRACE_OUT": utpath}, timeout=600, name="TestNegoUfs")
     # 4. TLC validates what was observed against Nego
     lines = 0
     mism = 0
     both = ctx.path("nego_all.ndjson")
     with open(both, "w") as g:
-        for p in (tpath, ctpath):
+        for p in (tpath, ctpath, utpath):
             if os.path.exists(p):
                 for line in open(p):
                     g.write(line)
@@ -74,6 +77,12 @@ def run(ctx):
         ctx.log("\n".join(rt.out.splitlines()[-25:]))
     bycase = {c["id"]: c for c in cases}
     bycase.update({c["id"]: c for c in ccases})
+    uid = 200000
+    for sd in (False, True):            # the order of TestNegoUfs
+        for v in ("9P2000", "9P2000.u"):
+            for cm in (8216, 256, 120):
+                uid += 1
+                bycase[uid] = {"id": uid, "engine": "TestNegoUfs", "sdotu": sd, "v": v, "m": cm}
     for line in rt.out.splitlines():
         line = line.strip()
         if line.startswith('"MISMATCH '):
@@ -93,13 +102,14 @@ def run(ctx):
             ctx.violation(key, "%s: expected %s, observed %s (case %s)" % (what, m.get("expected"), got, cs),
                           {"engine": "TestNego/TestConnect", "case": cs, "line": got})
     cov = {"states": r.distinct, "transitions": r.generated,
-           "traces_validated_against_impl": int(rep.get("cases_total", 0)) + int(crep.get("cases", 0) or 0),
+           "traces_validated_against_impl": int(rep.get("cases_total", 0)) + int(crep.get("cases", 0) or 0) + int(urep.get("cases", 0) or 0),
            "samples": (rep.get("samples") or [])[:1] + (crep.get("samples") or [])[:2],
            "evaluations": lines, "distinct_nontrivial": len(cases) + len(ccases),
            "rule": "grid of (server msize, server dialect, client msize, version string) cases; each distinct by construction; every later "
                    "reply frame and every announced frame size is one validated line",
            "frames_checked": int(rep.get("stats", {}).get("frames", 0) or 0), "lines_validated": lines, "mismatches": mism,
-           "grid_cases": len(cases), "connect_cases": len(ccases), "model_fixclip": fixclip,
+           "grid_cases": len(cases), "ufs_dialect_sessions": int(urep.get("cases", 0) or 0), "ufs_stat_frames": int(urep.get("stats", {}).get("stats", 0) or 0),
+           "ufs_dir_entries": int(urep.get("stats", {}).get("dir_entries", 0) or 0), "connect_cases": len(ccases), "model_fixclip": fixclip,
            "reads_held_across_a_second_tversion": int(rep.get("stats", {}).get("held_across_version", 0) or 0)}
     return ctx.finish("model_checking", cov, assumptions=[
         "sizes >= 2^31 are represented as 2^31-1 in the TLA+ trace (the server msize is always below)",
